@@ -6,8 +6,12 @@
 // The check is a stateful, step-by-step differential: one generated history of
 // buffer operations is applied to a bytes.Buffer and to a tex.Buffer through
 // the same code path (apply), and after every step the results, the error
-// (nil-ness, io.EOF identity), the panic (or its absence, equal string values)
-// and the observable state (Len, Bytes) of both are compared.
+// (nil-ness; identity for io.EOF, io.ErrShortWrite and the scripted errors of
+// the harness's own reader and writer), the panic (or its absence, equal string
+// values, ErrTooLarge on both sides or on neither) and the observable state
+// (Len, Bytes) of both are compared. The harness also writes through the slices
+// that Bytes and Next return (documented to alias the contents) and scribbles
+// over every slice it handed to Write after the call returned.
 package c11texbuf
 
 import (
@@ -41,6 +45,7 @@ type Case struct {
 // Ctor says how both buffers are made.
 //
 //	zero   : var b Buffer
+//	nil    : a nil *Buffer; only String is defined on it ("<nil>"), other operations are skipped
 //	bytes  : NewBuffer(payload with Spare bytes of spare capacity); an empty payload without spare is NewBuffer(nil)
 //	string : NewBufferString(payload)
 //	sized  : tex.NewSizedBuffer(Size)  vs  a bytes.Buffer after Grow(Size)
@@ -60,6 +65,7 @@ type Ctor struct {
 //	WriteRune          : rune(int32(N))
 //	Read               : len(p) = L
 //	Next, Truncate, Grow : N
+//	Next, Bytes        : X != 0: every byte of the returned slice is XORed with X right after the call
 //	ReadFrom           : R (scripted reader)
 //	WriteTo            : W (scripted writer)
 //	ReWrite            : pos N, payload(P,L,S)
@@ -69,6 +75,7 @@ type Op struct {
 	N int      `json:"n,omitempty"`
 	L int      `json:"l,omitempty"`
 	S uint8    `json:"s,omitempty"`
+	X uint8    `json:"x,omitempty"`
 	P []byte   `json:"p,omitempty"`
 	R []RStep  `json:"r,omitempty"`
 	W *WScript `json:"w,omitempty"`
@@ -81,7 +88,7 @@ type RStep struct {
 	L int    `json:"l,omitempty"`
 	S uint8  `json:"s,omitempty"`
 	P []byte `json:"p,omitempty"`
-	E int    `json:"e,omitempty"` // 0 nil, 1 io.EOF together with the data, 2 a non-EOF error together with the data, 3 the Read returns the count -1
+	E int    `json:"e,omitempty"` // 0 nil, 1 io.EOF together with the data, 2 a non-EOF error together with the data, 3 the Read returns the count -1, 4 an error that wraps io.EOF together with the data (an error, not the end of the stream)
 }
 
 const (
@@ -89,6 +96,7 @@ const (
 	rEOF
 	rErr
 	rNeg
+	rWrapEOF
 )
 
 // WScript is the scripted writer handed to WriteTo.
@@ -109,9 +117,22 @@ const (
 	maxGrowSane = 1 << 16 // Grow(n) is executed for n <= maxGrowSane or n >= minGrowHuge (fails at once, allocates nothing)
 	minGrowHuge = 1 << 62
 	sentinel    = 0xA5
+	scratch     = 0x5C // what the scripted reader leaves in the part of its destination it did not fill
 )
 
-var errScripted = errors.New("scripted failure")
+var (
+	errScripted = errors.New("scripted failure")
+	// bytes.Buffer.ReadFrom ends the stream on err == io.EOF only: this one is returned to the caller
+	errWrapsEOF = fmt.Errorf("scripted failure wrapping %w", io.EOF)
+)
+
+// fixedErr reports whether bytes.Buffer fixes the identity of e: the sentinels
+// it returns itself and the values of the scripted reader / writer, which it
+// passes through unchanged. (The errors of UnreadByte / UnreadRune are private
+// values of each package: only their presence is compared.)
+func fixedErr(e error) bool {
+	return e == io.EOF || e == io.ErrShortWrite || e == errScripted || e == errWrapsEOF
+}
 
 // payload builds the bytes denoted by (P, L, S): P tiled to length L, or, for
 // an empty P, the counter S, S+1, S+2, … (period 256, so a shift by any small
@@ -201,6 +222,10 @@ func (r *scriptReader) Read(p []byte) (int, error) {
 	}
 	n := copy(p, r.cur)
 	r.cur = r.cur[n:]
+	// io.Reader: "even if Read returns n < len(p), it may use all of p as scratch space"
+	for i := n; i < len(p); i++ {
+		p[i] = scratch
+	}
 	if len(r.cur) > 0 {
 		return n, nil
 	}
@@ -211,6 +236,8 @@ func (r *scriptReader) Read(p []byte) (int, error) {
 		return n, io.EOF
 	case rErr:
 		return n, errScripted
+	case rWrapEOF:
+		return n, errWrapsEOF
 	}
 	return n, nil
 }
@@ -282,8 +309,13 @@ func apply(b buffer, op *Op, onRead func()) (o outcome) {
 	}()
 	switch op.K {
 	case "Write":
-		n, err := b.Write(payload(op.P, op.L, op.S))
+		p := payload(op.P, op.L, op.S)
+		n, err := b.Write(p)
 		o.nums, o.hasErr, o.err = []int64{int64(n)}, true, err
+		// Write must have copied: the caller's slice is the caller's again
+		for i := range p {
+			p[i] = ^p[i]
+		}
 	case "WriteString":
 		n, err := b.WriteString(string(payload(op.P, op.L, op.S)))
 		o.nums, o.hasErr, o.err = []int64{int64(n)}, true, err
@@ -313,6 +345,7 @@ func apply(b buffer, op *Op, onRead func()) (o outcome) {
 	case "Next":
 		d := b.Next(op.N)
 		o.hasData, o.data = true, append([]byte{}, d...)
+		scribble(d, op.X) // the slice is valid until the next read or write call
 	case "Truncate":
 		b.Truncate(op.N)
 	case "Reset":
@@ -333,11 +366,23 @@ func apply(b buffer, op *Op, onRead func()) (o outcome) {
 	case "Len":
 		o.nums = []int64{int64(b.Len())}
 	case "Bytes":
-		o.hasData, o.data = true, append([]byte{}, b.Bytes()...)
+		d := b.Bytes()
+		o.hasData, o.data = true, append([]byte{}, d...)
+		scribble(d, op.X) // "the slice aliases the buffer content at least until the next buffer modification"
 	case "String":
 		o.hasData, o.data = true, []byte(b.String())
 	}
 	return o
+}
+
+// scribble writes through a slice that a buffer returned: every byte changes.
+func scribble(d []byte, x uint8) {
+	if x == 0 {
+		return
+	}
+	for i := range d {
+		d[i] ^= x
+	}
 }
 
 // growth request of a write-like op as documented for bytes.Buffer (-1: none)
@@ -437,32 +482,61 @@ type driver struct {
 	// unread-validity (any read, write, Next, Truncate, Reset, ReadFrom,
 	// WriteTo). Observers, ReWrite and skipped operations leave it alone.
 	growSince bool
-	// prefixDirty: a ReWrite changed consumed bytes that are still in the
-	// storage since the last call that sets or clears unread-validity. An
-	// Unread* would re-expose them, which bytes.Buffer cannot mirror: it is
-	// skipped and counted, like the one after Grow.
+	// last: model of the (at most UTFMax) last bytes the latest read (Read,
+	// ReadByte, ReadRune, Next) consumed - the harness saw them - as they now are
+	// in the storage, at positions off-len(last) .. off-1. Only these can be
+	// re-exposed by an Unread*. A write through the slice that Next returned and a ReWrite into
+	// the consumed prefix are applied to it. nil after any other call that sets
+	// or clears unread-validity and after a successful Unread*.
+	last []byte
+	// prefixDirty: a ReWrite changed bytes of last. bytes.Buffer has no ReWrite,
+	// so its storage still holds the old bytes there: when an Unread* re-exposes
+	// them, the harness writes the model's bytes into the reference (through
+	// Bytes(), documented to alias) before the states are compared.
 	prefixDirty bool
 }
 
 // settled is called by every operation that sets or clears unread-validity.
-func (d *driver) settled() { d.growSince, d.prefixDirty = false, false }
+func (d *driver) settled() { d.growSince, d.prefixDirty, d.last = false, false, nil }
 
-// rewrote records an executed ReWrite and names its class.
-func (d *driver) rewrote(op *Op, length int) string {
+// rewrote records an executed ReWrite(op.N, p) and names its class.
+func (d *driver) rewrote(op *Op, p []byte) string {
 	off := d.sh.off
+	if start := off - len(d.last); op.N < off && op.N+len(p) > start {
+		for i := range p {
+			if j := op.N + i - start; j >= 0 && j < len(d.last) {
+				d.last[j] = p[i]
+				d.prefixDirty = true
+			}
+		}
+	}
 	switch {
 	case op.L == 0:
 		return "rewrite:empty"
 	case op.N+op.L <= off:
-		d.prefixDirty = true
 		return "rewrite:into-consumed-prefix"
 	case op.N < off:
-		d.prefixDirty = true
 		return "rewrite:straddles-offset"
 	case off > 0:
 		return "rewrite:after-partial-read"
 	}
 	return "rewrite:at-offset-0"
+}
+
+// reexposed is called between a successful Unread* that put k bytes back and
+// the comparison of the states: if a ReWrite changed those bytes while they
+// were consumed, the reference (which could not take part in the ReWrite) is
+// given the bytes of the model, so that the comparison judges tex.Buffer
+// against the model of the consumed prefix.
+func (d *driver) reexposed(ref buffer, k int) bool {
+	if !d.prefixDirty || k <= 0 {
+		return false
+	}
+	k = min(k, len(d.last))
+	if front := ref.Bytes(); k <= len(front) {
+		copy(front[:k], d.last[len(d.last)-k:])
+	}
+	return true
 }
 
 // rewriteModel applies ReWrite(pos, p) to a copy of the unread bytes of a
@@ -502,9 +576,6 @@ func (d *driver) admit(op *Op, length int) string {
 		if d.growSince {
 			return op.K + " after Grow (excluded by the property)"
 		}
-		if d.prefixDirty {
-			return op.K + " after a ReWrite into the consumed prefix (the reference cannot mirror it)"
-		}
 	case "ReWrite":
 		// positions index the storage: consumed bytes not yet slid away (off) come first
 		if d.sh.unknown {
@@ -539,7 +610,11 @@ func (d *driver) admit(op *Op, length int) string {
 
 // after records an executed op: lb/la are the unread lengths before and after,
 // o the outcome on the buffer that is being tracked, measured its Cap() (or -1).
-func (d *driver) after(op *Op, lb, la int, o *outcome, measured int) (labels []string) {
+// before is Bytes() of the trusted reference taken before the call (the slice
+// itself, not a copy: it is only read after calls that consumed from its
+// front, which leave the storage where it is, and then shows what is in the
+// storage now, including what was written through the slice Next returned).
+func (d *driver) after(op *Op, lb, la int, o *outcome, measured int, before []byte) (labels []string) {
 	s := &d.sh
 	switch op.K {
 	case "Read", "ReadByte", "ReadRune":
@@ -549,12 +624,21 @@ func (d *driver) after(op *Op, lb, la int, o *outcome, measured int) (labels []s
 		} else {
 			s.off += lb - la
 		}
+		if k := lb - la; k > 0 && k <= len(before) {
+			d.last = append([]byte{}, before[max(0, k-utf8.UTFMax):k]...) // no Unread* reaches further back
+		}
 	case "Next":
 		d.settled()
 		if !o.panicked {
 			s.off += lb - la
+			if k := lb - la; k > 0 && k <= len(before) {
+				d.last = append([]byte{}, before[max(0, k-utf8.UTFMax):k]...)
+			}
 		}
 	case "UnreadByte", "UnreadRune":
+		if la > lb {
+			d.last, d.prefixDirty = nil, false
+		}
 		s.off -= la - lb
 		if s.off < 0 {
 			s.off, s.unknown = 0, true
@@ -818,11 +902,20 @@ func (g *genState) genOp(t *rapid.T) Op {
 	case "Next":
 		if g.aim >= 0 {
 			op.N = g.aim
-		} else if rapid.IntRange(0, 19).Draw(t, "nextneg") == 0 {
-			op.N = rapid.SampledFrom([]int{-1, -2, math.MinInt}).Draw(t, "nextnegv")
 		} else {
-			op.N = g.genReadSize(t, "next")
+			switch rapid.IntRange(0, 19).Draw(t, "nextneg") {
+			case 0:
+				op.N = rapid.SampledFrom([]int{-1, -2, math.MinInt}).Draw(t, "nextnegv")
+			case 1: // far more than there is: off+n must not be computed
+				op.N = rapid.SampledFrom([]int{math.MaxInt, math.MaxInt - 1, math.MaxInt32 + 1}).Draw(t, "nexthugev")
+			default:
+				op.N = g.genReadSize(t, "next")
+			}
 		}
+		// half of the time write through the returned slice (a following UnreadByte shows its last byte again)
+		op.X = rapid.SampledFrom([]uint8{0, 0, 0, 0xff, 0x01, 0x80}).Draw(t, "nextscribble")
+	case "Bytes":
+		op.X = rapid.SampledFrom([]uint8{0, 0, 0xff, 0x01, 0x80, 0x20}).Draw(t, "bytesscribble")
 	case "Truncate":
 		op.N = pickInt(t, "trunc", []int{0, 0, 1, l / 2, l - 1, l, l, l + 1, l + 2, -1, math.MinInt, math.MaxInt, 64, 63}, math.MinInt, math.MaxInt)
 	case "Grow":
@@ -844,7 +937,7 @@ func (g *genState) genOp(t *rapid.T) Op {
 			var st RStep
 			st.P, st.S = genPattern(t)
 			st.L = rapid.SampledFrom([]int{0, 0, 1, 5, 63, 64, 65, 100, 300, 511, 512, 513, 600, 700, 1100}).Draw(t, "rlen")
-			st.E = rapid.SampledFrom([]int{rNil, rNil, rNil, rNil, rNil, rEOF, rEOF, rErr, rErr, rNeg}).Draw(t, "rend")
+			st.E = rapid.SampledFrom([]int{rNil, rNil, rNil, rNil, rNil, rNil, rEOF, rEOF, rErr, rErr, rNeg, rWrapEOF}).Draw(t, "rend")
 			op.R = append(op.R, st)
 		}
 	case "WriteTo":
@@ -885,19 +978,28 @@ func (g *genState) genOp(t *rapid.T) Op {
 
 // advance applies op to the reference with the executor's admission rules.
 func (g *genState) advance(op *Op) {
+	prev := g.hint
 	g.hint = ""
 	lb := g.ref.Len()
 	if g.d.admit(op, lb) != "" {
 		return
 	}
 	if op.K == "ReWrite" {
-		rewriteModel(g.ref.Bytes(), g.d.sh.off, op.N, payload(op.P, op.L, op.S))
-		g.d.rewrote(op, lb)
+		p := payload(op.P, op.L, op.S)
+		rewriteModel(g.ref.Bytes(), g.d.sh.off, op.N, p)
+		g.d.rewrote(op, p)
+		if prev == "read" || prev == "readrune" {
+			g.hint = prev // unread-validity is untouched: an Unread* may still follow
+		}
 		return
 	}
+	before := g.ref.Bytes()
 	o := apply(g.ref, op, func() { g.d.sh.grow(g.ref.Len(), tex.MinRead, -1, true) })
 	la := g.ref.Len()
-	g.d.after(op, lb, la, &o, -1)
+	if op.K == "UnreadByte" || op.K == "UnreadRune" {
+		g.d.reexposed(g.ref, la-lb)
+	}
+	g.d.after(op, lb, la, &o, -1, before)
 	switch op.K {
 	case "Read", "ReadByte", "Next":
 		if la < lb {
@@ -929,6 +1031,10 @@ func (g *genState) advance(op *Op) {
 
 func genCtor(t *rapid.T) Ctor {
 	var c Ctor
+	if rapid.IntRange(0, 99).Draw(t, "nilctor") == 57 {
+		c.Kind = "nil"
+		return c
+	}
 	switch rapid.IntRange(0, 9).Draw(t, "ctor") {
 	case 0, 1, 2:
 		c.Kind = "zero"
@@ -943,7 +1049,7 @@ func genCtor(t *rapid.T) Ctor {
 		c.L = rapid.SampledFrom([]int{0, 1, 5, 30, 63, 64, 65, 100, 200, 600}).Draw(t, "ctorlen")
 	default:
 		c.Kind = "sized"
-		c.Size = rapid.SampledFrom([]int{0, 1, 4, 10, 23, 63, 64, 65, 100, 512, 600}).Draw(t, "size")
+		c.Size = rapid.SampledFrom([]int{0, 1, 4, 10, 23, 63, 64, 65, 100, 512, 600, 0, 1, 4, 10, 23, 63, 64, 65, 100, 512, 600, 4096, 4097, 10000, 65536}).Draw(t, "size")
 	}
 	return c
 }
@@ -953,6 +1059,10 @@ func genCtor(t *rapid.T) Ctor {
 // is never consulted.
 func Gen(t *rapid.T) Case {
 	c := Case{Ctor: genCtor(t)}
+	if c.Ctor.Kind == "nil" {
+		c.Ops = []Op{{K: "String"}}
+		return c
+	}
 	ref, _, _ := construct(&c.Ctor, false)
 	g := &genState{ref: ref, d: newDriver(&c.Ctor, -1)}
 	if ref.Len() == 0 {
@@ -1102,6 +1212,9 @@ func diffOutcome(k string, ref, got *outcome) (site, msg string) {
 		if ref.pv == any(bytes.ErrTooLarge) && got.pv != any(tex.ErrTooLarge) {
 			return k + "/panic", fmt.Sprintf("bytes.Buffer panics with bytes.ErrTooLarge, tex.Buffer with %s %q which is not tex.ErrTooLarge", gk, gt)
 		}
+		if got.pv == any(tex.ErrTooLarge) && ref.pv != any(bytes.ErrTooLarge) {
+			return k + "/panic", fmt.Sprintf("tex.Buffer panics with tex.ErrTooLarge, bytes.Buffer with %s %q which is not bytes.ErrTooLarge", rk, rt)
+		}
 	} else {
 		if len(ref.nums) != len(got.nums) {
 			return k + "/result", "internal: result arity differs"
@@ -1115,8 +1228,11 @@ func diffOutcome(k string, ref, got *outcome) (site, msg string) {
 			return k + "/result", "returned bytes differ, " + diffBytes(ref.data, got.data)
 		}
 		if ref.hasErr {
-			if (ref.err == nil) != (got.err == nil) || (ref.err == io.EOF) != (got.err == io.EOF) {
+			if (ref.err == nil) != (got.err == nil) {
 				return k + "/error", fmt.Sprintf("error: bytes.Buffer %s, tex.Buffer %s", errStr(ref.err), errStr(got.err))
+			}
+			if (fixedErr(ref.err) || fixedErr(got.err)) && ref.err != got.err {
+				return k + "/error", fmt.Sprintf("error identity: bytes.Buffer returns %s, tex.Buffer %s - not the same error value (io.EOF, io.ErrShortWrite and the errors of the caller's io.Reader / io.Writer are returned as they are)", errStr(ref.err), errStr(got.err))
 			}
 		}
 	}
@@ -1180,6 +1296,23 @@ func isWriteLike(k string) bool {
 // Exec runs the history on both buffers and compares after every step.
 func Exec(c Case) *vkit.Result {
 	res := &vkit.Result{}
+	if c.Ctor.Kind == "nil" {
+		// String is the one method defined on a nil *Buffer ("<nil>", "useful in debugging")
+		res.Class("ctor:nil")
+		for i := range c.Ops {
+			op := &c.Ops[i]
+			if op.K != "String" {
+				res.Skip(op.K + " on a nil *Buffer")
+				continue
+			}
+			ro := apply((*bytes.Buffer)(nil), op, nil)
+			to := apply((*tex.Buffer)(nil), op, nil)
+			if site, msg := diffOutcome(op.K, &ro, &to); site != "" {
+				return res.Failf("String/nil-receiver", "step %d of %d, String() on a nil *Buffer: %s", i+1, len(c.Ops), msg)
+			}
+		}
+		return res
+	}
 	ref, tb, why := construct(&c.Ctor, true)
 	if why != "" {
 		res.Skip(why)
@@ -1232,7 +1365,10 @@ func Exec(c Case) *vkit.Result {
 				return res.Failf("ReWrite/state", "%s: %s", at, msg)
 			}
 			res.Class("rewrite:done")
-			res.Class(d.rewrote(op, lb))
+			res.Class(d.rewrote(op, p))
+			if d.prefixDirty {
+				res.Class("rewrite:changed-unreadable-bytes")
+			}
 			if op.L > 0 && op.N > off && op.N+op.L < off+lb {
 				res.Class("rewrite:interior")
 			}
@@ -1240,16 +1376,37 @@ func Exec(c Case) *vkit.Result {
 		}
 
 		var hookLabels []string
+		before := ref.Bytes()
 		ro := apply(ref, op, nil)
 		to := apply(tb, op, func() { hookLabels = append(hookLabels, d.sh.grow(tb.Len(), tex.MinRead, tb.Cap(), true)...) })
 		if site, msg := diffOutcome(op.K, &ro, &to); site != "" {
 			return res.Failf(site, "%s: %s", at, msg)
 		}
-		if msg := diffState(ref, tb); msg != "" {
-			return res.Failf(op.K+"/state", "%s: afterwards %s", at, msg)
-		}
 		la := ref.Len()
-		labels := append(hookLabels, d.after(op, lb, la, &ro, tb.Cap())...)
+		stateSite := op.K + "/state"
+		switch op.K {
+		case "UnreadByte", "UnreadRune":
+			if d.reexposed(ref, la-lb) {
+				// the bytes put back were rewritten while consumed: tex.Buffer is judged against the model of them
+				stateSite = op.K + "/rewritten-prefix"
+				at += fmt.Sprintf(" (a ReWrite changed the consumed bytes it re-exposes: the model has %s there)", show(d.last))
+				res.Class("unread:after-rewrite-of-consumed-bytes")
+			}
+		case "Bytes":
+			if op.X != 0 {
+				stateSite = "Bytes/alias"
+				at += fmt.Sprintf(" (the returned slice was then XORed with %#x)", op.X)
+				res.Class("alias:wrote-through-Bytes")
+			}
+		case "Next":
+			if op.X != 0 && len(ro.data) > 0 {
+				res.Class("alias:wrote-through-Next")
+			}
+		}
+		if msg := diffState(ref, tb); msg != "" {
+			return res.Failf(stateSite, "%s: afterwards %s", at, msg)
+		}
+		labels := append(hookLabels, d.after(op, lb, la, &ro, tb.Cap(), before)...)
 		for _, l := range labels {
 			res.Class(l)
 			switch l {
@@ -1385,7 +1542,7 @@ func classify(res *vkit.Result, op *Op, ro *outcome, lb, la int, unreads *int) {
 // Part is the one generated check of C11.
 var Part = &vkit.Part[Case]{
 	Property: Property, Name: "differential",
-	Rule:  "rapid: a constructor (zero value | NewBuffer(bytes with spare capacity) | NewBufferString | NewSizedBuffer(k) vs a bytes.Buffer grown to k) and 1-80 operations out of Write, WriteString, WriteByte, WriteRune (ASCII, 2/3/4-byte, surrogates, negative, > MaxRune), Read(len 0..>Len), ReadByte, ReadRune (valid and invalid UTF-8 payload patterns), UnreadByte, UnreadRune, Next(n incl. > Len and negative), Truncate(n incl. invalid), Reset, Grow(n incl. negative and unallocatably large), ReadFrom(scripted reader: chunks below/at/above MinRead, (0,nil), io.EOF with data, early error, negative count), WriteTo(scripted writer: full, short write, error, over-count), Len, Bytes, String, ReWrite(pos,p) at storage positions (consumed bytes not yet slid away come first: inside the unread part after partial reads, inside the consumed prefix, across the read offset). The generator folds over a real bytes.Buffer and a prediction of the storage layout, so that sizes aim at the exact fit of the spare tail, one byte more, the largest request that still slides down, one more (reallocate) and the 64-byte small buffer; reads are followed by Unread*/Grow with raised probability. After every step results, error nil-ness and io.EOF identity, panic-or-not with equal string panic values and (Len, Bytes) of both buffers are compared. ReWrite is judged against a slice model over the storage (storage position off+j is unread byte j, off = consumed bytes still in front, known from the same bookkeeping; exactly the addressed unread bytes change). Unread* is skipped (and counted) while a Grow is the latest call that could have moved the data or after a ReWrite touched the consumed prefix; ReWrite is skipped when it would reach beyond the storage or the layout bookkeeping was contradicted by Cap(). Non-trivial: the history exercised >= 2 different growth paths of tex.Buffer (reset-if-empty, reslice, small allocation, slide down, reallocate; classified from Cap() changes and consumed-byte bookkeeping) and >= 1 successful Unread*; distinct = distinct case JSON",
+	Rule:  "rapid: a constructor (zero value | NewBuffer(bytes with spare capacity) | NewBufferString | NewSizedBuffer(k, k up to 65536) vs a bytes.Buffer grown to k | rarely a nil *Buffer, on which String() must give \"<nil>\") and 1-80 operations out of Write, WriteString, WriteByte, WriteRune (ASCII, 2/3/4-byte, surrogates, negative, > MaxRune), Read(len 0..>Len), ReadByte, ReadRune (valid and invalid UTF-8 payload patterns), UnreadByte, UnreadRune, Next(n incl. > Len, negative and MaxInt; half of the time the returned slice is written through), Truncate(n incl. invalid), Reset, Grow(n incl. negative and unallocatably large), ReadFrom(scripted reader: chunks below/at/above MinRead, (0,nil), io.EOF with data, early error, an error wrapping io.EOF, negative count; the reader uses the rest of its destination as scratch space), WriteTo(scripted writer: full, short write, error, over-count), Len, Bytes (sometimes written through), String, ReWrite(pos,p) at storage positions (consumed bytes not yet slid away come first: inside the unread part after partial reads, inside the consumed prefix, across the read offset). The generator folds over a real bytes.Buffer and a prediction of the storage layout, so that sizes aim at the exact fit of the spare tail, one byte more, the largest request that still slides down, one more (reallocate) and the 64-byte small buffer; reads are followed by Unread*/Grow with raised probability. After every step results, error nil-ness and error identity (io.EOF, io.ErrShortWrite, the scripted reader's / writer's own error values), panic-or-not with equal string panic values and ErrTooLarge on both sides or on neither, and (Len, Bytes) of both buffers are compared; the slice handed to Write is overwritten after the call. ReWrite is judged against a slice model over the storage (storage position off+j is unread byte j, off = consumed bytes still in front, known from the same bookkeeping; exactly the addressed unread bytes change). Unread* is skipped (and counted) while a Grow is the latest call that could have moved the data; after a ReWrite changed the consumed bytes that an Unread* re-exposes, they are judged against a model of those bytes (the harness saw them being read); ReWrite is skipped when it would reach beyond the storage or the layout bookkeeping was contradicted by Cap(). Non-trivial: the history exercised >= 2 different growth paths of tex.Buffer (reset-if-empty, reslice, small allocation, slide down, reallocate; classified from Cap() changes and consumed-byte bookkeeping) and >= 1 successful Unread*; distinct = distinct case JSON",
 	Quick: 30000, Thorough: 60000,
 	Gen: Gen, Exec: Exec,
 }
